@@ -11,6 +11,7 @@ from hypothesis import strategies as hst
 
 from sqv import core, hyp
 from sqv.core import Failure, Stats
+from sqv.spec import refparse
 from sqv.spec.neutral import neutral, same_tree
 from sqv.values import canon
 
@@ -176,7 +177,7 @@ def run_sequence(ops, case):
                 # a fresh parser of the same process may share hidden module state: also compare with the reference
                 try:
                     from sqv.spec import refsem
-                    rout, _ = refsem.run(neutral(p.parse(src)), {}, max_ops=op[3])
+                    rout, _ = refsem.run(refparse.parse_text(src), {}, max_ops=op[3])
                     if rout[0] == 'value' and (so[0] != 'value' or so[1] != canon(rout[1])):
                         bad('history-dependent:eval-without-names', f'eval({src!r}) without a names mapping gave {so!r}; with no earlier call it gives {rout[1]!r}')
                         break
@@ -199,7 +200,7 @@ def run_sequence(ops, case):
                 # absolute expectation as well: process-wide hidden state would fool the fresh-parser comparison
                 try:
                     from sqv.spec import refsem
-                    rout, _ = refsem.run(neutral(shared('plain').parse(src)), pre_names, max_ops=op[3])
+                    rout, _ = refsem.run(refparse.parse_text(src), pre_names, max_ops=op[3])
                     if rout[0] == 'value' and canon(rout[1]) != so[1]:
                         bad('history-dependent:eval-vs-reference', f'eval({src!r}, names{op[2]}) gave {so!r}; the reference semantics give {rout[1]!r}')
                         break
